@@ -4,7 +4,7 @@ import shutil
 import subprocess
 import tempfile
 
-from ..core import get_worker, rng_for, WorkerDied, WorkerTimeout, VERIF
+from ..core import get_worker, rng_for, WorkerDied, WorkerTimeout, VERIF, TARGET
 from ..build import cli_binary
 
 LEVEL = "exploration"
@@ -115,7 +115,7 @@ def judge(sh, case, form, rc, out, err, lib, lines_of_second=None):
 def run_shard(sh, spec):
     w = get_worker()
     rng = rng_for(spec["seed"], "C22", spec["idx"])
-    tmp = tempfile.mkdtemp(prefix="vf_c22_", dir=os.path.join(VERIF, "target"))
+    tmp = tempfile.mkdtemp(prefix="vf_c22_", dir=TARGET)
     try:
         home = os.path.join(tmp, "home")
         os.makedirs(home)
@@ -191,7 +191,7 @@ def run_shard(sh, spec):
 
 def replay(sh, case):
     w = get_worker()
-    tmp = tempfile.mkdtemp(prefix="vf_c22_", dir=os.path.join(VERIF, "target"))
+    tmp = tempfile.mkdtemp(prefix="vf_c22_", dir=TARGET)
     try:
         home = os.path.join(tmp, "home")
         os.makedirs(home)
